@@ -53,6 +53,8 @@ int main(int argc, char **argv) {
         {
             Face face(&src, ops);
             bool ok = face.readFeatures();
+            Face face2(&src, ops);                                     // a second face over the same tables (ops xset)
+            if (ok) ok = face2.readFeatures();
             if (!ok) out = " REJECT";
             else {
                 const gr_face *gf = static_cast<const gr_face *>(&face);
@@ -71,6 +73,15 @@ int main(int argc, char **argv) {
                         if ((int)fi >= face.numFeatures()) { out += " S NA"; continue; }
                         int r = gr_fref_set_feature_value(static_cast<const gr_feature_ref *>(face.feature(fi)), (gr_uint16)v, fv);
                         out += std::string(" S ") + (r ? "1 " : "0 ") + readback(face, fv);
+                    } else if (op.compare(0, 5, "xset:") == 0) {       // the same feature of the second face
+                        unsigned fi, v; sscanf(op.c_str() + 5, "%u:%u", &fi, &v);
+                        if ((int)fi >= face2.numFeatures()) { out += " X NA"; continue; }
+                        int r = gr_fref_set_feature_value(static_cast<const gr_feature_ref *>(face2.feature(fi)), (gr_uint16)v, fv);
+                        out += std::string(" X ") + (r ? "1 " : "0 ") + readback(face, fv) + " " + readback(face2, fv);
+                    } else if (op == "blank") {                        // an unbound map: gr_featureval_clone(NULL)
+                        gr_featureval_destroy(fv);
+                        fv = gr_featureval_clone(NULL);
+                        out += " B " + readback(face, fv);
                     } else if (op == "clone") {
                         gr_feature_val *c = gr_featureval_clone(fv);
                         bool eq = (*static_cast<FeatureVal *>(c) == *static_cast<FeatureVal *>(fv));
